@@ -8,17 +8,18 @@ Scalars == {65, 127, 128, 2047, 2048, 55295, 57344, 65533, 65535, 65536, 1114111
 
 \* ill-formed blobs per encoding (name -> units)
 Ill8  == [lonecont |-> <<128>>, overlong2 |-> <<192, 128>>, overlong3 |-> <<224, 128, 128>>, trunc3 |-> <<226, 130>>,
-          trunc4 |-> <<240, 144, 128>>, badlead |-> <<248>>, surrogate |-> <<237, 160, 128>>, toobig |-> <<244, 144, 128, 128>>]
+          trunc4 |-> <<240, 144, 128>>, badlead |-> <<248>>, surrogate |-> <<237, 160, 128>>, toobig |-> <<244, 144, 128, 128>>,
+          badlead4 |-> <<248, 144, 128, 128>>, badlead5 |-> <<251, 191, 191, 191>>]
 Ill16 == [lonehigh |-> <<55296>>, lonelow |-> <<56320>>, lowhigh |-> <<57343, 56319>>]
 Ill32 == [surrogate |-> <<55296>>, toobig |-> <<1114112>>, minusone |-> <<-1>>]
 IllOf(e) == CASE e = 8 -> Ill8 [] e = 16 -> Ill16 [] e = 32 -> Ill32
 
 \* items: a scalar, or "ill" standing for an ill-formed blob (instantiated per encoding by index)
-ItemAlpha == Scalars \cup {-1, -2, -3}
+ItemAlpha == Scalars \cup {-1, -2, -3, -4, -5}
 IllName(e, k) ==   \* which blob of encoding e the abstract ill item k (-1,-2,-3) stands for
-  CASE e = 8  -> (CASE k = -1 -> "lonecont" [] k = -2 -> "trunc3" [] k = -3 -> "surrogate")
-    [] e = 16 -> (CASE k = -1 -> "lonehigh" [] k = -2 -> "lonelow" [] k = -3 -> "lowhigh")
-    [] e = 32 -> (CASE k = -1 -> "surrogate" [] k = -2 -> "toobig" [] k = -3 -> "minusone")
+  CASE e = 8  -> (CASE k = -1 -> "lonecont" [] k = -2 -> "trunc3" [] k = -3 -> "surrogate" [] k = -4 -> "badlead4" [] k = -5 -> "toobig")
+    [] e = 16 -> (CASE k = -1 -> "lonehigh" [] k = -2 -> "lonelow" [] k = -3 -> "lowhigh" [] k = -4 -> "lonehigh" [] k = -5 -> "lonelow")
+    [] e = 32 -> (CASE k = -1 -> "surrogate" [] k = -2 -> "toobig" [] k = -3 -> "minusone" [] k = -4 -> "toobig" [] k = -5 -> "surrogate")
 
 UnitsOf(e, it) == IF it >= 0 THEN EncodeOne(e, it) ELSE IllOf(e)[IllName(e, it)]
 
